@@ -19,9 +19,9 @@ CONSTANTS Reqs,        \* request identifiers (each issued at most once)
           MaxUnsol,    \* unsolicited responses overall
           Timed
 
-VARIABLES now, socks, cur, sem, semQ, reqs, evLog, unsol
+VARIABLES now, socks, cur, sem, semQ, reqs, evLog, unsol, wantUp
 
-vars == <<now, socks, cur, sem, semQ, reqs, evLog, unsol>>
+vars == <<now, socks, cur, sem, semQ, reqs, evLog, unsol, wantUp>>
 
 TPS == 4096
 T_REQUEST == 30 * TPS
@@ -55,9 +55,9 @@ Commit(S) == /\ socks' = S.socks /\ cur' = S.cur /\ sem' = S.sem /\ semQ' = S.se
 \* the part of request() after the semaphore is held: protocol check, transport check, write
 SendOrFail(S, r) ==
     IF S.cur = 0 \/ S.cur # S.reqs[r].sock THEN      \* no protocol, or not the one the request was issued on
-        Release([S EXCEPT !.reqs[r] = [@ EXCEPT !.pc = "done", !.res = "disconnected", !.wake = "none"]])
+        Release([S EXCEPT !.reqs[r] = [@ EXCEPT !.pc = "done", !.res = "disconnected", !.wake = "none", !.dl = At(0)]])
     ELSE IF S.socks[S.cur].st # "up" THEN                       \* transport.is_closing()
-        Release([S EXCEPT !.reqs[r] = [@ EXCEPT !.pc = "done", !.res = "disconnected", !.wake = "none"]])
+        Release([S EXCEPT !.reqs[r] = [@ EXCEPT !.pc = "done", !.res = "disconnected", !.wake = "none", !.dl = At(0)]])
     ELSE [S EXCEPT !.socks[S.cur].cbs = Append(@, r), !.socks[S.cur].c2a = Append(@, r),
                    !.reqs[r] = [@ EXCEPT !.pc = "inflight", !.sock = S.cur, !.wake = "none", !.dl = At(T_REQUEST)]]
 
@@ -76,15 +76,15 @@ CloseTransport(S, s) == IF S.socks[s].st = "up" THEN [S EXCEPT !.socks[s].st = "
 Issue(r, werr) ==
     /\ reqs[r].pc = "idle"
     /\ LET S == St IN
-       IF S.cur = 0 THEN Commit([S EXCEPT !.reqs[r] = [@ EXCEPT !.pc = "done", !.res = "disconnected"]])
+       IF S.cur = 0 THEN Commit([S EXCEPT !.reqs[r] = [@ EXCEPT !.pc = "done", !.res = "disconnected", !.dl = At(0)]])
        ELSE IF S.sem = 0 THEN Commit(WriteErr(SendOrFail([S EXCEPT !.sem = r, !.reqs[r].sock = S.cur], r), r, werr))
        ELSE Commit([S EXCEPT !.semQ = Append(@, r), !.reqs[r].pc = "semwait", !.reqs[r].sock = S.cur])
-    /\ UNCHANGED <<now, evLog, unsol>>
+    /\ UNCHANGED <<now, evLog, unsol, wantUp>>
 
 CallerCancel(r) ==
     /\ reqs[r].pc \in {"semwait", "inflight"}
     /\ reqs' = [reqs EXCEPT ![r].wake = "cancel"]
-    /\ UNCHANGED <<now, socks, cur, sem, semQ, evLog, unsol>>
+    /\ UNCHANGED <<now, socks, cur, sem, semQ, evLog, unsol, wantUp>>
 
 \* the caller's task continues
 ReqRun(r, werr) ==
@@ -98,30 +98,30 @@ ReqRun(r, werr) ==
                  \* CancelledError inside Semaphore.acquire(): leave the queue; if the semaphore had
                  \* already been handed to us, pass it on
                  LET S1 == [S EXCEPT !.semQ = SelectSeq(@, LAMBDA x : x # r),
-                                     !.reqs[r] = [@ EXCEPT !.pc = "done", !.res = "cancelled", !.wake = "none"]]
+                                     !.reqs[r] = [@ EXCEPT !.pc = "done", !.res = "cancelled", !.wake = "none", !.dl = At(0)]]
                  IN IF S.sem = r THEN Release(S1) ELSE S1
             [] R.pc = "inflight" /\ w = "resp" ->
-                 Release([S EXCEPT !.reqs[r] = [@ EXCEPT !.pc = "done", !.res = "resp", !.wake = "none", !.dl = 0]])
+                 Release([S EXCEPT !.reqs[r] = [@ EXCEPT !.pc = "done", !.res = "resp", !.wake = "none", !.dl = At(0)]])
             [] R.pc = "inflight" /\ w \in {"timeout", "cancel", "lost"} ->
                  \* _send_lines: except -> transport.write_eof(); transport.close(); raise
                  LET S1 == CloseTransport(S, R.sock) IN
-                 Release([S1 EXCEPT !.reqs[r] = [@ EXCEPT !.pc = "done", !.wake = "none", !.dl = 0,
+                 Release([S1 EXCEPT !.reqs[r] = [@ EXCEPT !.pc = "done", !.wake = "none", !.dl = At(0),
                                                   !.res = IF w = "cancel" THEN "cancelled" ELSE "disconnected"]])
             [] OTHER -> S)
-    /\ UNCHANGED <<now, evLog, unsol>>
+    /\ UNCHANGED <<now, evLog, unsol, wantUp>>
 
 TimerDue(r) == reqs[r].pc = "inflight" /\ reqs[r].wake = "none"
 TimerFire(r) ==
     /\ TimerDue(r)
     /\ Timed => now = reqs[r].dl
     /\ reqs' = [reqs EXCEPT ![r].wake = "timeout"]
-    /\ UNCHANGED <<now, socks, cur, sem, semQ, evLog, unsol>>
+    /\ UNCHANGED <<now, socks, cur, sem, semQ, evLog, unsol, wantUp>>
 
 \* ------------------------------------------------------------------ accessory / network
 AccRecv(s) ==
     /\ s \in Socks /\ socks[s].c2a # << >> /\ socks[s].pclose = "no"
     /\ socks' = [socks EXCEPT ![s].c2a = Tail(@), ![s].accPend = Append(@, Head(socks[s].c2a))]
-    /\ UNCHANGED <<now, cur, sem, semQ, reqs, evLog, unsol>>
+    /\ UNCHANGED <<now, cur, sem, semQ, reqs, evLog, unsol, wantUp>>
 \* a conformant accessory answers the oldest unanswered request, whole or in two pieces (the second
 \* piece follows the first with nothing in between on that socket, but anything may happen elsewhere)
 AccRespond(s, piece) ==
@@ -131,12 +131,12 @@ AccRespond(s, piece) ==
        socks' = [socks EXCEPT ![s].accPend = IF piece = "rest" THEN @ ELSE Tail(@),
                               ![s].accHalf = IF piece = "half" THEN r ELSE 0,
                               ![s].a2c = Append(@, <<piece, r>>)]
-    /\ UNCHANGED <<now, cur, sem, semQ, reqs, evLog, unsol>>
+    /\ UNCHANGED <<now, cur, sem, semQ, reqs, evLog, unsol, wantUp>>
 AccEvent(s) ==
     /\ s \in Socks /\ socks[s].pclose = "no" /\ socks[s].accHalf = 0
     /\ MaxEv > 0 => socks[s].evSent < MaxEv
     /\ socks' = [socks EXCEPT ![s].evSent = @ + 1, ![s].a2c = Append(@, <<"event", socks[s].evSent + 1>>)]
-    /\ UNCHANGED <<now, cur, sem, semQ, reqs, evLog, unsol>>
+    /\ UNCHANGED <<now, cur, sem, semQ, reqs, evLog, unsol, wantUp>>
 \* An unsolicited response.  On the wire it cannot be told from the response to a request written while
 \* it was in flight (that race is inherent to the protocol), so the environment sends one only while the
 \* controller has nothing outstanding on s and it is read before anything else happens: data_received finds
@@ -147,11 +147,11 @@ AccUnsolicited(s) ==
     /\ unsol < MaxUnsol
     /\ unsol' = unsol + 1
     /\ socks' = [socks EXCEPT ![s].st = "closing"]
-    /\ UNCHANGED <<now, cur, sem, semQ, reqs, evLog>>
+    /\ UNCHANGED <<now, cur, sem, semQ, reqs, evLog, wantUp>>
 PeerClose(s, how) ==
     /\ s \in Socks /\ socks[s].pclose = "no" /\ how \in {"fin", "rst"}
     /\ socks' = [socks EXCEPT ![s].pclose = how, ![s].a2c = Append(@, <<how, 0>>)]
-    /\ UNCHANGED <<now, cur, sem, semQ, reqs, evLog, unsol>>
+    /\ UNCHANGED <<now, cur, sem, semQ, reqs, evLog, unsol, wantUp>>
 
 \* the transport reads the next message of socket s (only while not closing)
 CtrlRead(s) ==
@@ -178,7 +178,7 @@ CtrlRead(s) ==
                  /\ UNCHANGED evLog
             [] m[1] = "rst" ->
                  /\ socks' = [sk EXCEPT ![s].st = "closing"] /\ UNCHANGED <<reqs, evLog>>
-    /\ UNCHANGED <<now, cur, sem, semQ, unsol>>
+    /\ UNCHANGED <<now, cur, sem, semQ, unsol, wantUp>>
 
 \* protocol.connection_lost for socket s
 LostCallback(s) ==
@@ -186,15 +186,25 @@ LostCallback(s) ==
     /\ reqs' = FailPending(reqs, socks, s)
     /\ socks' = [socks EXCEPT ![s].lostRun = TRUE, ![s].st = "dead", ![s].cbs = << >>]
     /\ cur' = IF cur = s THEN 0 ELSE cur
-    /\ UNCHANGED <<now, sem, semQ, evLog, unsol>>
+    /\ UNCHANGED <<now, sem, semQ, evLog, unsol, wantUp>>
 
 \* the background connector established a new secure session
 SessionUp ==
-    /\ cur = 0
+    /\ cur = 0 /\ wantUp
     /\ MaxSock > 0 => Len(socks) < MaxSock
     /\ socks' = Append(socks, NewSock)
     /\ cur' = Len(socks) + 1
+    /\ UNCHANGED <<now, sem, semQ, reqs, evLog, unsol, wantUp>>
+
+\* the owner closes the connection (HomeKitConnection.close): the transport is dropped at once, the
+\* connector stops; pending requests are failed by the loss callback
+UserClose ==
+    /\ wantUp' = FALSE
+    /\ socks' = IF cur # 0 /\ socks[cur].st = "up" THEN [socks EXCEPT ![cur].st = "closing"] ELSE socks
+    /\ cur' = 0
     /\ UNCHANGED <<now, sem, semQ, reqs, evLog, unsol>>
+\* ... and later asks for the connection again (ensure_connection)
+UserOpen == /\ ~wantUp /\ wantUp' = TRUE /\ UNCHANGED <<now, socks, cur, sem, semQ, reqs, evLog, unsol>>
 
 \* ------------------------------------------------------------------ time
 Deadlines == {reqs[r].dl : r \in {x \in Reqs : TimerDue(x)}}
@@ -206,14 +216,14 @@ InternalEnabled ==
 Quiescent == ~InternalEnabled
 
 Init == /\ now = 0 /\ socks = << >> /\ cur = 0 /\ sem = 0 /\ semQ = << >>
-        /\ reqs = [r \in Reqs |-> IdleReq] /\ evLog = << >> /\ unsol = 0
+        /\ reqs = [r \in Reqs |-> IdleReq] /\ evLog = << >> /\ unsol = 0 /\ wantUp = TRUE
 
 Next ==
     \/ \E r \in Reqs, werr \in BOOLEAN : Issue(r, werr) \/ CallerCancel(r) \/ ReqRun(r, werr) \/ TimerFire(r)
     \/ \E s \in 1..Len(socks) : AccRecv(s) \/ AccRespond(s, "resp") \/ AccRespond(s, "half") \/ AccRespond(s, "rest") \/ AccEvent(s)
                                \/ AccUnsolicited(s) \/ PeerClose(s, "fin") \/ PeerClose(s, "rst")
                                \/ CtrlRead(s) \/ LostCallback(s)
-    \/ SessionUp
+    \/ SessionUp \/ UserClose \/ UserOpen
 Spec == Init /\ [][Next]_vars
 
 \* ------------------------------------------------------------------ properties (C08)
